@@ -376,6 +376,7 @@ class PathCtx:
         self.max_decisions = max_decisions
         self.fresh = 0
         self.guards = []           # tolerance guards met on symbolic operands (probed concretely by the runner)
+        self.sqrt_memo = {}
         self.known_pos = set()     # names of variables asserted > 0 (feeds the sign analysis that spares solver calls)
         self.quick = 0
 
@@ -543,8 +544,13 @@ def sym_sqrt(x, nonneg=False):
     ctx = PathCtx.cur
     if ctx is None:
         raise Unsupported("sqrt of symbolic value outside path context")
-    r = ctx.fresh_real("sqrt")
     xt = _real(x.t)
+    key_t = z3.simplify(xt)
+    hit = ctx.sqrt_memo.get(key_t.get_id())
+    if hit is not None:
+        return Sym(hit[1])          # sqrt is a function: the same radicand gives the same auxiliary variable
+    r = ctx.fresh_real("sqrt")
+    ctx.sqrt_memo[key_t.get_id()] = (key_t, r)      # the radicand AST is kept alive with its id
     if not nonneg:
         ctx.side.append(("sqrt-domain", xt >= 0))
     ctx.add(z3.And(r >= 0, r * r == xt))
